@@ -265,6 +265,24 @@ fn size_grid(o: &OtiP) -> Vec<u64> {
     v
 }
 
+/// Raptor / RaptorQ are modelled by contract (the k source symbols suffice; what a decoder makes of
+/// repair symbols alone is library behaviour).  A receiver that forgets a completed object (FDT
+/// instances when receive-once is off, no-cache objects) starts a new reception from the trailing
+/// repair symbols: such configurations get no repair symbols, so that model and library agree.
+pub fn sanitize(sp: &mut SessP) {
+    let rap = |s: Scheme| matches!(s, Scheme::Raptor | Scheme::RaptorQ);
+    if rap(sp.oti.sch) && !sp.ro {
+        sp.oti.p = 0;
+    }
+    let d = sp.oti;
+    for o in sp.objs.iter_mut() {
+        let oti = o.oti.unwrap_or(d);
+        if rap(oti.sch) && o.cc == "nocache" {
+            o.oti = Some(OtiP { p: 0, ..oti });
+        }
+    }
+}
+
 pub fn gen_c01(seed: u64, thorough: bool) -> Vec<CaseSpec> {
     let mut rng = Rng::new(seed ^ 0xC01);
     let mut cases = Vec::new();
@@ -568,8 +586,8 @@ pub fn gen_c16(seed: u64, thorough: bool) -> Vec<CaseSpec> {
                         sp.mux = vec![*rng.pick(&[1u32, 2])];
                         sp.dt = 1000;
                         sp.idle = 1000;
-                        sp.fcar = Car::Delay(*rng.pick(&[5000u64, 20_000]));
-                        sp.n = 700;
+                        sp.fcar = Car::Delay(*rng.pick(&[20_000u64, 60_000]));
+                        sp.n = 1200;
                         for j in 0..nobj {
                             let mut ob = ObjP::default();
                             let e = *rng.pick(&[4u32, 8]);
@@ -588,13 +606,23 @@ pub fn gen_c16(seed: u64, thorough: bool) -> Vec<CaseSpec> {
                             ob.seed = rng.below(10_000);
                             ob.car = car;
                             ob.icenc = inband;
-                            if (n + j) % 5 == 0 && ob.sz > 0 {
+                            if (n + j) % 5 == 0 && ob.sz > 0 && sch != Scheme::Raptor {
                                 ob.cenc = "zlib".into();
                                 ob.ck = 'p';
                             }
                             sp.objs.push(ob);
                         }
                         n += 1;
+                        // Raptor / RaptorQ: every other session without repair symbols (compared with the
+                        // model), the others with repair symbols (oracle-only `jprobe` runs)
+                        if matches!(sch, Scheme::Raptor | Scheme::RaptorQ) && n % 2 == 0 {
+                            sp.oti.p = 0;
+                            for o in sp.objs.iter_mut() {
+                                if let Some(x) = o.oti.as_mut() {
+                                    x.p = 0;
+                                }
+                            }
+                        }
                         cases.push(CaseSpec { id: format!("C16-{}", n), sp, plans: vec![Plan::JoinAll] });
                     }
                 }
